@@ -217,7 +217,7 @@ int run(const Options& o)
         for (auto& n : split(e, ','))
             if (auto s = schema_by_name(n)) cfg.schemas.push_back(*s);
     }
-    cfg.depth = o.quick() ? 3 : 5;
+    cfg.depth = o.quick() ? 3 : 6;
     if (const char* e = getenv("VX_DEPTH")) cfg.depth = atoi(e);
     cfg.deadline_abs = t0 + (o.deadline_s > 0 ? o.deadline_s : (o.quick() ? 280 : 3000));
     auto st = ex::explore<Dom>(o, cfg, rep, total);
